@@ -43,7 +43,7 @@ type interpreter struct {
 	funcsSym           map[*ssa.Function]bool // functions executed with a symbolic operand
 	funcsRun           map[*ssa.Function]bool
 	intercepted        map[string]int
-	sched              scheduler
+	sched              *scheduler
 	uninitReads        map[string]bool
 	symFlag            bool
 	knownActive        map[string]bool
